@@ -44,9 +44,13 @@ CLAIMED = {
                 "seq[i mod len] up to the maximum length, unequal lengths are rejected (never truncated); one element per step and element i is the wrapped processor on "
                 "parameters merged computed > provided; probes pass data through and return one result per step; every variable's materialised sequence is published as "
                 "<var>_values for sources, operations and (hard obligation on the repaired fact) probes; an explicit list is the sequence of its elements. "
-                "Closed under the global context. Sweep-centred pipelines run against both the fact-driven and the documented variant of the model every run.",
-        "note": "Models coq/Model/Sweep.v, Pipeline.v, PipelineLib.v; linear ranges only with integer steps (others dropped), log ranges not modelled; expressions restricted to the "
-                "arithmetic fragment with constant divisors (numpy scalars divide by zero to inf).",
+                "Linear ranges over binary64 (Model/Linspace.v, PrimFloat: numpy.linspace as the factory calls it): one value per step, the last value is hi itself with the endpoint, "
+                "every other value is lo + i*((hi-lo)/div) in IEEE arithmetic with numpy's association; compared bit for bit (float.hex) every run with what "
+                "_materialize_sequences and whole swept pipelines produce for random bounds (ascending, descending, equal, denormal, huge). "
+                "Closed under the global context (the range theorems mention the kernel's PrimFloat/PrimInt63 primitives). Sweep-centred pipelines run against both the fact-driven "
+                "and the documented variant of the model every run.",
+        "note": "Models coq/Model/Sweep.v, Pipeline.v, PipelineLib.v, Linspace.v; inside whole-pipeline model cases ranges have integer steps (float ranges are covered by the Linspace "
+                "correspondence), log ranges not modelled (libm); expressions restricted to the arithmetic fragment with constant divisors (numpy scalars divide by zero to inf).",
         "technique": "Coq proof over executable model + generated facts + differential correspondence (Spec and Impl variants)",
         "design": "DESIGN.md section 6, C03",
     },
@@ -164,8 +168,10 @@ CLAIMED = {
     "C13": {
         "text": "Theorems over an executable model of TraceAggregator: ingest steps of non-conflicting records commute (whole-state equality), verdicts are invariant under every permutation "
                 "and k-way interleaving of a well-formed record set, finalising any number of times changes nothing, for every prefix length of a runtime-shaped trace the verdict is the "
-                "documented one (unknown / partial with missing_pipeline_end and exact missing nodes / complete), launch roll-ups equal the counts of their runs' verdicts; runtime traces are "
-                "well-formed. Closed under the global context. Real traces of single runs and launches are fed to the real aggregator as prefixes, permutations, interleavings and subsets and "
+                "documented one (unknown / partial with missing_pipeline_end and exact missing nodes / complete), launch roll-ups equal the counts of their runs' verdicts; the same at launch "
+                "level: for every prefix length of run_space_start :: body ++ [run_space_end] the launch verdict is unknown / partial with the end edge named / complete exactly when every "
+                "attached run is complete, with the roll-up counting exactly the runs whose pipeline_start is in the prefix (hard obligation launch_chain_ok on the generated status chain); "
+                "a whole launch file whose runs all left complete traces is complete, one with a cut run is partial; runtime traces are well-formed. Closed under the global context. Real traces of single runs and launches are fed to the real aggregator as prefixes, permutations, interleavings and subsets and "
                 "compared with the model every run.",
         "note": "Model coq/Model/Aggregator.v; status chains and terminal set regenerated from aggregator.py; timestamps/ids are strings or null.",
         "technique": "Coq proof (commuting steps, induction over prefixes) + generated rule tables + differential correspondence on real traces",
@@ -180,9 +186,13 @@ CLAIMED = {
                 "Tie = trace validation: real thread schedules are enumerated up to a preemption bound with a deterministic sys.settrace baton scheduler, mapped to model events by "
                 "AST anchors, replayed in Coq and compared with the real delivered lists and leftovers. Pattern routing: the theorems hold for every pattern of Model/Glob.v, an executable "
                 "shell-style matcher (star, question mark, bracket expressions with negation and ranges) proved to specialise to exact names and prefix-star patterns and compared with the "
-                "fnmatch function the transport imports on 1500+ generated (pattern, channel) pairs every run.",
+                "fnmatch function the transport imports on 1500+ generated (pattern, channel) pairs every run. One consumer over time (Model/Subscription.v: publish / open / next / "
+                "close / drain sequences with the closed and finished flags): a closed subscription consumes nothing, for every operation sequence each published message is delivered at most once "
+                "and is queued otherwise, a drain leaves no matching message (hard obligation on the generated fact closed_tested_before_pop); the real transport runs the same sequences "
+                "and is compared inside Coq.",
         "note": "Model coq/Model/Transport.v; interleaving granularity = source line of in_memory.py plus the defaultdict factory call; preemption inside a single C call is assumed "
-                "not to occur; fnmatch modelled for exact and prefix-star patterns only; termination of a drain is not proved.",
+                "not to occur; termination of a drain is proved for the sequential model only (fuel above the queued count), under a fair scheduler otherwise; asyncio cancellation "
+                "points are exercised by a direct oracle, not modelled.",
         "technique": "Coq invariant proofs over all schedules + generated structural facts + trace validation of real schedules (deterministic scheduler)",
         "design": "DESIGN.md section 6, C14",
     },
